@@ -369,7 +369,7 @@ fn run_transport(
     let mut clients_to_remove = Vec::new();
     let mut metadata = HashMap::new();
     let mut next_token = START_TOKEN;
-    let mut buffered_pmsgs = VecDeque::with_capacity(buffer_limit);
+    let mut buffered_pmsgs = VecDeque::new();
 
     loop {
         let _span = trace_span!("transport");
